@@ -298,8 +298,8 @@ class Lowering(object):
                 self.field_sorts[key] = ("Event", full)
                 setv(attr + ".flag", False)
                 return
-            if name == "RLock":
-                self.field_sorts[key] = ("RLock", full)
+            if name in ("RLock", "Lock"):
+                self.field_sorts[key] = ("RLock" if name == "RLock" else "Lock", full)
                 setv(attr + ".owner", -1)
                 setv(attr + ".depth", 0)
                 return
@@ -1026,6 +1026,33 @@ class StmtLowering(object):
                 return self.simple(line, "assign " + tgt.id, eff, k, kind="stmt" if line else "internal")
 
             return self.with_hoisting(stmt, [value], ctx, build)
+        if isinstance(tgt, ast.Tuple) and isinstance(value, ast.Tuple) and len(tgt.elts) == len(value.elts) \
+                and all(isinstance(e, ast.Name) for e in tgt.elts):
+            # a, b = x, y  (right-hand sides are evaluated first)
+            def build(new, line):
+                vals = [self.ex.compile(e, ctx) for e in new]
+                tmps = []
+                for v in vals:
+                    self.tmp += 1
+                    tmps.append((self.lo.declare_local(ctx, "_pair{0}".format(self.tmp), False if v.sort == "bool" else 0), v))
+                effs = []
+                for e, (tmpname, v) in zip(tgt.elts, tmps):
+                    effs.append(self.set_local(ctx, e.id, Val(v.sort, (lambda env, n=tmpname: env.l(n)), v.base)))
+
+                def eff(env, upd):
+                    first = {}
+                    for tmpname, v in tmps:
+                        first[env.lname(tmpname)] = v.fn(env)
+                    upd.update(first)
+                    shadow = dict(env.state)
+                    shadow.update(first)
+                    env2 = core.Env(env.system, shadow, env.tid, env.choice)
+                    for e in effs:
+                        e(env2, upd)
+
+                return self.simple(line, "assign pair", eff, k, kind="stmt" if line else "internal")
+
+            return self.with_hoisting(stmt, list(value.elts), ctx, build)
         if isinstance(tgt, ast.Tuple):
             # method, args, kwargs, future = task
             names = [e.id for e in tgt.elts if isinstance(e, ast.Name)]
@@ -1223,17 +1250,37 @@ class StmtLowering(object):
             raise Unsupported("with statement form")
         cm = self.ex.compile(stmt.items[0].context_expr, ctx)
         line = stmt.lineno
-        if cm.sort == "RLock":
+        if cm.sort in ("RLock", "Lock"):
             base = cm.base
+            reentrant = cm.sort == "RLock"
+            per_instance = not base.startswith("P.")
+            M = self.U.M
+
+            def rd(env, what):
+                if per_instance:
+                    return env.arr(base + what, cm.fn(env), M)
+                return env.g(base + what)
+
+            def wr(env, upd, what, value):
+                if per_instance:
+                    arr_write(upd, env, base + what, cm.fn(env), M, value)
+                else:
+                    upd[base + what] = value
 
             def acquire(env):
-                owner, depth = env.g(base + ".owner"), env.g(base + ".depth")
-                ok = or_(eq(owner, -1), eq(owner, env.tid))
-                return ok, {base + ".owner": env.tid, base + ".depth": add(depth, 1)}
+                owner, depth = rd(env, ".owner"), rd(env, ".depth")
+                ok = or_(eq(owner, -1), eq(owner, env.tid)) if reentrant else eq(owner, -1)
+                upd = {}
+                wr(env, upd, ".owner", env.tid)
+                wr(env, upd, ".depth", add(depth, 1))
+                return ok, upd
 
             def release(env):
-                depth = sub(env.g(base + ".depth"), 1)
-                return {base + ".depth": depth, base + ".owner": ite(eq(depth, 0), -1, env.g(base + ".owner"))}
+                depth = sub(rd(env, ".depth"), 1)
+                upd = {}
+                wr(env, upd, ".depth", depth)
+                wr(env, upd, ".owner", ite(eq(depth, 0), -1, rd(env, ".owner")))
+                return upd
 
         elif cm.sort == "Cond":
             base = cm.base
@@ -1247,7 +1294,7 @@ class StmtLowering(object):
         else:
             raise Unsupported("with {0}".format(cm.sort))
 
-        is_rlock = cm.sort == "RLock"
+        is_rlock = cm.sort in ("RLock", "Lock")
 
         def make_release(target):
             def run(env):
@@ -1429,6 +1476,12 @@ class StmtLowering(object):
                     recv0.sort == "Opaque" and f.attr in ("debug", "info", "warning", "error", "exception", "critical", "format"))):
                 return self.simple(line, "no-op " + f.attr, None, k, kind="stmt" if line else "internal")
         # ---- task body: method(*args, **kwargs) ---------------------------------------
+        if isinstance(f, ast.Name) and f.id in ctx.locals and ctx.locals[f.id][0] == "id" and len(args) == 3 \
+                and not any(isinstance(a, ast.Starred) for a in args):
+            # a callback taken out of its field into a local: callback(result, exception, extra)
+            fv = self.ex.compile(f, ctx)
+            vals = [as_id(self.ex.compile(a, ctx), U) for a in args]
+            return self.callback_call(line, fv, vals, ctx, k)
         if isinstance(f, ast.Name) and f.id in ctx.locals and ctx.locals[f.id][0] in ("Task", "id"):
             task = self.ex.compile(f, ctx)
             return self.task_call(line, task, ctx, k, result_name)
@@ -1456,6 +1509,9 @@ class StmtLowering(object):
                         fresh[full] = lo.system.init[full + "[0]"]
                     elif sort == "Event":
                         fresh[full + ".flag"] = False
+                    elif sort in ("RLock", "Lock"):
+                        fresh[full + ".owner"] = -1
+                        fresh[full + ".depth"] = 0
 
             def outcomes(env):
                 idx = sub(task.fn(env), U.TASK0)
